@@ -8,6 +8,7 @@ import (
 
 	v1 "k8s.io/api/core/v1"
 
+	"verif/harness/internal/k8sm"
 	"verif/harness/internal/run"
 	"verif/harness/internal/sched"
 )
@@ -101,7 +102,45 @@ func CheckC07(m *Model, events []sched.Event, cycle int, st *Stats, in *C07Input
 
 func resOf(u *QueueUsage, key string) Res { return u.counted[key] }
 
+// judgeReclaim judges one decision. A victim that the same statement re-nominates elsewhere ("moved") is read as
+// taking nothing from its queue. Without consolidating reclaim the scheduler itself counts moved victims as taken
+// (and the pod is in fact killed and its nomination forgotten), so there a report must hold under both readings.
 func judgeReclaim(m *Model, before, after *QueueUsage, dec []sched.Event, cycle int, st *Stats, in *C07Input, agree map[string]bool) []run.Violation {
+	a := judgeReclaimReading(m, before, after, dec, cycle, st, in, agree, false)
+	if len(a) == 0 || m.Cfg.AllowConsolidatingReclaim {
+		return a
+	}
+	afterB := after.Clone()
+	placed := map[string]bool{}
+	for k := range dec {
+		if e := &dec[k]; OK(e) && (e.Kind == "bind" || e.Kind == "pipeline") {
+			placed[e.Key()] = true
+		}
+	}
+	for k := range dec {
+		if e := &dec[k]; OK(e) && e.Kind == "evict" && placed[e.Key()] {
+			if p := m.Pods[e.Key()]; p != nil {
+				afterB.Remove(p)
+			}
+		}
+	}
+	b := judgeReclaimReading(m, before, afterB, dec, cycle, NewStats(), in, agree, true)
+	sigs := map[string]bool{}
+	for _, v := range b {
+		sigs[v.Sig] = true
+	}
+	var out []run.Violation
+	for _, v := range a {
+		if sigs[v.Sig] {
+			out = append(out, v)
+		} else {
+			st.Inc("reports_dropped_hold_only_if_moved_victims_take_nothing")
+		}
+	}
+	return out
+}
+
+func judgeReclaimReading(m *Model, before, after *QueueUsage, dec []sched.Event, cycle int, st *Stats, in *C07Input, agree map[string]bool, movedTaken bool) []run.Violation {
 	var out []run.Violation
 	placed := map[string]bool{}
 	preemptor := ""
@@ -149,7 +188,7 @@ func judgeReclaim(m *Model, before, after *QueueUsage, dec []sched.Event, cycle 
 	byJob := map[string]*taken{}
 	for k := range dec {
 		e := &dec[k]
-		if e.Kind != "evict" || !OK(e) || placed[e.Key()] {
+		if e.Kind != "evict" || !OK(e) || (placed[e.Key()] && !movedTaken) {
 			continue
 		}
 		p := m.Pods[e.Key()]
@@ -174,6 +213,20 @@ func judgeReclaim(m *Model, before, after *QueueUsage, dec []sched.Event, cycle 
 	if len(byJob) == 0 {
 		st.Inc("reclaim_decisions_without_net_victims")
 		return nil
+	}
+	// class of the decision: "after-shared-gpu-renomination" if it evicts and re-nominates a GPU-sharing pod in the
+	// same statement (the scheduler's own queue accounting is known to drift there, see C14), else "plain"
+	class := "plain"
+	for k := range dec {
+		e := &dec[k]
+		if e.Kind == "evict" && OK(e) && placed[e.Key()] {
+			if p := m.Pods[e.Key()]; p != nil {
+				if g := k8sm.GPURequest(p); g.Fraction > 0 || g.Memory > 0 {
+					class = "after-shared-gpu-renomination"
+					st.Inc("reclaim_decisions_renominating_shared_gpu_pod")
+				}
+			}
+		}
 	}
 	// all queues involved must start from an allocation both sides agree on
 	involved := map[string]bool{}
@@ -252,7 +305,7 @@ func judgeReclaim(m *Model, before, after *QueueUsage, dec []sched.Event, cycle 
 			if !withinAll(before.Alloc[v], quota) {
 				kind = "cut-below-quota-by-extra-victim"
 			}
-			out = append(out, Viol("C07", "reclaimed-from-queue-within-deserved-quota", kind, cycle,
+			out = append(out, Viol("C07", "reclaimed-from-queue-within-deserved-quota", class+":"+kind, cycle,
 				"reclaim for %s (queue %s) reduced queue %s from gpu=%.3f cpu=%.0f mem=%.0f to gpu=%.3f cpu=%.0f mem=%.0f although, before the last victim was taken, it was within its deserved quota gpu=%.3f cpu=%.0f mem=%.0f in every resource; %s",
 				rpg.Name, R, v, before.Alloc[v].GPU, before.Alloc[v].CPU, before.Alloc[v].Mem, after.Alloc[v].GPU, after.Alloc[v].CPU, after.Alloc[v].Mem,
 				quota.GPU, quota.CPU, quota.Mem, desc))
@@ -266,7 +319,7 @@ func judgeReclaim(m *Model, before, after *QueueUsage, dec []sched.Event, cycle 
 		}
 		st.Inc("reclaimer_fair_share_checks")
 		if a, f := after.Alloc[R].Get(r), fairR.Get(r); f >= 0 && a > f+1e-6+1e-9*math.Abs(f) {
-			out = append(out, Viol("C07", "reclaimer-above-fair-share", ResNames[r], cycle,
+			out = append(out, Viol("C07", "reclaimer-above-fair-share", class+":"+ResNames[r], cycle,
 				"reclaim for %s: queue %s ends with %s allocation %.4f > fair share %.4f (received %.4f)", rpg.Name, R, ResNames[r], a, f, req.Get(r)))
 		}
 	}
@@ -284,7 +337,7 @@ func judgeReclaim(m *Model, before, after *QueueUsage, dec []sched.Event, cycle 
 					if q.Name != R {
 						lvl = "ancestor"
 					}
-					out = append(out, Viol("C07", "non-preemptible-reclaimer-over-quota", ResNames[r]+":"+lvl, cycle,
+					out = append(out, Viol("C07", "non-preemptible-reclaimer-over-quota", class+":"+ResNames[r]+":"+lvl, cycle,
 						"reclaim for non-preemptible %s: non-preemptible %s allocation of queue %s is %.4f > deserved quota %.4f", rpg.Name, ResNames[r], q.Name, a, quota.Get(r)))
 				}
 			}
@@ -330,7 +383,7 @@ func judgeReclaim(m *Model, before, after *QueueUsage, dec []sched.Event, cycle 
 					if a.Name != R {
 						lvl = "ancestor"
 					}
-					out = append(out, Viol("C07", "reclaimer-at-least-as-saturated-as-sibling", ResNames[r]+":"+lvl, cycle,
+					out = append(out, Viol("C07", "reclaimer-at-least-as-saturated-as-sibling", class+":"+ResNames[r]+":"+lvl, cycle,
 						"reclaim for %s: queue %s ends above its %s fair share (%.4f / %.4f = %.4f) and at least as saturated as sibling %s it took from (%.4f / %.4f = %.4f)",
 						rpg.Name, a.Name, ResNames[r], after.Alloc[a.Name].Get(r), fa, ra, sName, after.Alloc[sName].Get(r), fs, rs))
 				}
